@@ -322,24 +322,13 @@ pub fn run(ctx: &Ctx) -> Report {
     for m in start.legal_moves() {
         tasks.push(Task::Walk(start.make(m).to_fen(), d0));
     }
+    let budget = ctx.tier.pick(30_000.0f64, 300_000.0);
     for (i, p) in corp.positions.iter().enumerate() {
-        let men = p.material_count();
-        let d = match ctx.tier {
-            Tier::Quick => {
-                if men <= 16 {
-                    3
-                } else {
-                    2
-                }
-            }
-            Tier::Thorough => {
-                if men <= 10 {
-                    4
-                } else {
-                    3
-                }
-            }
-        };
+        let n2 = super::oracle::perft(p, 2).max(2) as f64;
+        let mut d = 1u32;
+        while d < 6 && n2.powf((d + 1) as f64 / 2.0) <= budget {
+            d += 1;
+        }
         tasks.push(Task::Walk(corp.fens[i].clone(), d));
     }
     let game_batches = 32;
@@ -428,7 +417,7 @@ pub fn replay(_ctx: &Ctx, case: &Value) -> Report {
 }
 
 pub const LEVEL: &str = "exploration";
-pub const RULE: &str = "positions = every node of oracle-driven bounded walks (start position depth 5 quick / 6 thorough, corpus FENs depth 2-3 / 3-4) and of proptest-generated games, all entered into one run-wide table key -> position identity (collision between different identities = violation); every single-component perturbation (side to move; each castling right; e.p. file added/removed/moved; one piece removed/recoloured/retyped/added/shifted) of every ~40th explored position, kept inside the valid-FEN domain, must change the key and is entered too; plus a complete single-component table (10 piece kinds x admissible squares, kings x squares, 16 rights subsets, 8 e.p. files, both sides to move). Non-trivial = each new distinct position identity entered and each perturbation pair; counted distinct by identity.";
+pub const RULE: &str = "positions = every node of oracle-driven bounded walks (start position depth 5 quick / 6 thorough, corpus FENs to the deepest depth whose estimated walk fits 30 000 / 300 000 nodes) and of proptest-generated games, all entered into one run-wide table key -> position identity (collision between different identities = violation); every single-component perturbation (side to move; each castling right; e.p. file added/removed/moved; one piece removed/recoloured/retyped/added/shifted) of every ~40th explored position, kept inside the valid-FEN domain, must change the key and is entered too; plus a complete single-component table (10 piece kinds x admissible squares, kings x squares, 16 rights subsets, 8 e.p. files, both sides to move). Non-trivial = each new distinct position identity entered and each perturbation pair; counted distinct by identity.";
 pub const ASSUMPTIONS: &[&str] = &[
     "keys are obtained as Board::from_fen(oracle FEN).zkey (the from-scratch key; C04 ties it to the incremental one)",
     "an honest 64-bit collision among N keys has probability about N^2/2^65 (5e-5 for 4e7 keys); the Zobrist seed is a constant, so the outcome is deterministic per (code, VERIF_SEED)",
